@@ -367,6 +367,23 @@ func c20(c *Ctx) {
 						return 1, true
 					}
 				}
+				// "budget - len(prefix) <= 0" (or < 1): a prefix that leaves no room for payload; every
+				// module call site passes a constant prefix shorter than the budget (R-C20.3), and such
+				// inputs divided by zero before
+				if k, isK := core.ConstInt(y); isK && (k == 0 || k == 1) {
+					if sub, isSub := x.(*ssa.BinOp); isSub && sub.Op == token.SUB {
+						if _, isB := core.ConstInt(sub.X); isB {
+							if lc, isLen := sub.Y.(*ssa.Call); isLen && core.CalleeName(lc.Common()) == "builtin:len" && core.Strip(lc.Call.Args[0]) == ssa.Value(enc.Params[0]) {
+								switch {
+								case (op == token.LEQ && k == 0) || (op == token.LSS && k == 1):
+									return 0, true
+								case (op == token.GTR && k == 0) || (op == token.GEQ && k == 1):
+									return 1, true
+								}
+							}
+						}
+					}
+				}
 			}
 			return 0, false
 		}}
